@@ -428,6 +428,7 @@ fn run_credit(ch: Chooser, ctx: &RunCtx, mut opts: BasicOpts) -> RunOut {
     opts.op_kinds = vec![0, 1, 4];
     opts.wl.stop = 200;
     opts.wl.unordered = 200;
+    opts.wl.lazy = 300;
     let mut sk = TKnobs::draw(&mut w.ch);
     let mut ck = TKnobs::draw(&mut w.ch);
     for k in [&mut sk, &mut ck] {
